@@ -70,9 +70,13 @@ type Report struct {
 	Info        []string // informational lines (never violations)
 }
 
+// ProcessStart is when the checker process started (wall_s includes loading
+// and type-checking /repo).
+var ProcessStart = time.Now()
+
 func NewReport(prop, tier string, p *Prog) *Report {
 	seed, _ := strconv.Atoi(os.Getenv("VERIF_SEED"))
-	return &Report{Property: prop, Tier: tier, Seed: seed, Prog: p, start: time.Now(),
+	return &Report{Property: prop, Tier: tier, Seed: seed, Prog: p, start: ProcessStart,
 		ruleByID: map[string]*RuleInfo{}, fnSeen: map[string]bool{}, Extra: map[string]any{}}
 }
 
@@ -347,3 +351,15 @@ func FailLoad(prop, tier string, err error) int {
 
 // Rep returns the report the rule belongs to.
 func (x *R) Rep() *Report { return x.rep }
+
+// IsKnown reports whether the obligation key is listed as a known finding for
+// the property.
+func IsKnown(prop, key string) bool {
+	known, _ := loadKnown()
+	for _, k := range known {
+		if k.property == prop && k.key == key {
+			return true
+		}
+	}
+	return false
+}
